@@ -15,7 +15,7 @@ func main() {
 	r.Rule("C01's history generator; after EVERY event, for EVERY transaction of the universe (known or forgotten): TxDetails (nil iff unknown; block; credits with amount/change/spent flag = 'some known tx spends it'; debits = exactly the inputs spending wallet credits, with amounts), UniqueTxDetails for the right block / a wrong block hash / nil, PreviousPkScripts; RangeTransactions over fixed and random [begin,end] pairs forwards and backwards incl. -1 (each known tx in range exactly once, none outside, block order, per-entry details). Non-trivial = history with a disconnect or conflict removal; distinct = distinct event sequences.")
 	r.Trusted("btcd wire/chainhash", "walletdb/bdb (C11)")
 	r.Assume("chain-consistent histories as in C01", "credits are marked right after the insert that created the record, as wallet.addRelevantTx does")
-	n := r.N(120, 2500)
+	n := r.N(400, 3500)
 	cfg := ledger.Config{MinSteps: 20, MaxSteps: r.N(70, 180), Details: true, Reopen: true}
 	dir := r.TempDir("c13")
 	defer os.RemoveAll(dir)
